@@ -9,7 +9,7 @@ for id in $ids; do
   prop=${id%%-*}
   if ! git -C /repo apply --check /verif/seeded/$id/patch.diff 2>/dev/null; then echo "$id does-not-apply" > build/seed_results/$id.txt; continue; fi
   git -C /repo apply /verif/seeded/$id/patch.diff
-  if [ "$prop" = "C20" ] || [ "$prop" = "C15" ]; then flag=""; else flag="--no-build"; fi
+  flag=""   # always rebuild: tie T re-translates the source (coq/Gen) on every run
   timeout 3600 ./check $prop --tier quick $flag > build/seed_results/$id.log 2>&1
   rc=$?
   git -C /repo checkout -- .
